@@ -73,7 +73,7 @@ theorem validation_imposes_no_order (g g' : Graph) (s : S) (id : Nat)
 
 /-- Collecting the wanted set (also for the second phase of an invocation) never resets a
     running or finished build, so nothing that ran can be queued again within one `Work`. -/
-theorem want_never_restarts (g : Graph) (s s' : S) (f : Nat) (h : want g s f = .ok s') (b : Nat) :
+theorem want_never_restarts (g : Graph) (s s' : S) (f : Nat) (h : want g s f = .ok () s') (b : Nat) :
     (s'.st b = .running ↔ s.st b = .running) ∧ (s'.st b = .done ↔ s.st b = .done) ∧
     (s'.st b = .failed ↔ s.st b = .failed) ∧ (s'.st b = .queued ↔ s.st b = .queued) :=
   let e := (want_lateEq' g s s' f h).1
